@@ -55,6 +55,7 @@ type Contract struct {
 	Requires      []*Clause
 	Ensures       []*Clause
 	Invs          map[int][]*Clause
+	Preserved     map[int][]*Clause // loop k: preserved n int :: guard :: expr  (proved by induction on n at the back edge)
 	Decr          map[int]*Clause
 	Modifies      []*Clause
 	Asserts       []*Clause
@@ -200,6 +201,11 @@ func parseContractFile(path, pkgPath string) ([]*Contract, error) {
 				cur.Invs[k] = append(cur.Invs[k], mk("invariant", k, r2))
 			case "decreases":
 				cur.Decr[k] = mk("decreases", k, r2)
+			case "preserved":
+				if cur.Preserved == nil {
+					cur.Preserved = map[int][]*Clause{}
+				}
+				cur.Preserved[k] = append(cur.Preserved[k], mk("preserved", k, r2))
 			case "unroll":
 				var n int
 				fmt.Sscanf(r2, "%d", &n)
@@ -689,6 +695,16 @@ func (g *genCtx) genClause(c *Contract, cl *Clause, fs *fnSyntax, si *sigInfo) e
 				goExpr = ""
 			}
 		}()
+		if cl.Kind == "preserved" {
+			// n T :: guard :: expr
+			ps := strings.SplitN(cl.Text, "::", 3)
+			if len(ps) != 3 {
+				return
+			}
+			b := strings.TrimSpace(ps[0])
+			goExpr = fmt.Sprintf("verif_preserved(func(%s) bool { return %s }, func(%s) int { return %s })", b, rewriteSpec(ps[1]), b, rewriteSpec(ps[2]))
+			return
+		}
 		goExpr = rewriteSpec(cl.Text)
 	}()
 	if goExpr == "" {
@@ -712,7 +728,7 @@ func (g *genCtx) genClause(c *Contract, cl *Clause, fs *fnSyntax, si *sigInfo) e
 		params = append(params, p)
 		decl = append(decl, p.Name+" "+p.TypeStr)
 	}
-	isInv := cl.Kind == "invariant" || cl.Kind == "decreases" || cl.Kind == "assert"
+	isInv := cl.Kind == "invariant" || cl.Kind == "decreases" || cl.Kind == "assert" || cl.Kind == "preserved"
 	for i, p := range si.params {
 		add(ClauseParam{Name: si.pnames[i], Kind: "param", Index: i}, p.Type())
 	}
@@ -869,6 +885,9 @@ func generateClauses(pkg *packages.Package, contracts []*Contract) (string, []er
 		}
 		for _, d := range c.Decr {
 			all = append(all, d)
+		}
+		for _, ps := range c.Preserved {
+			all = append(all, ps...)
 		}
 		all = append(all, c.Modifies...)
 		all = append(all, c.Asserts...)
